@@ -166,6 +166,7 @@ type vKit struct {
 	isr      map[string]bool
 	hwDisk   map[string]int64
 	lastLog  map[string][]vRepRec
+	lastGap  map[string]bool
 	lastHW   map[string]int64
 	lastIsr  map[string]map[string]int64
 	ackInbox string
@@ -222,7 +223,7 @@ func newVKit(t *testing.T, ns *gnatsd.Server, gate *vFollowGate, n int, minISR, 
 		t:   t, base: base, ns: ns, url: ns.ClientURL(), gate: gate,
 		stream: fmt.Sprintf("s%d", n), subject: fmt.Sprintf("subj%d", n),
 		srv: map[string]*Server{}, isr: map[string]bool{}, hwDisk: map[string]int64{},
-		lastLog: map[string][]vRepRec{}, lastHW: map[string]int64{}, lastIsr: map[string]map[string]int64{},
+		lastLog: map[string][]vRepRec{}, lastGap: map[string]bool{}, lastHW: map[string]int64{}, lastIsr: map[string]map[string]int64{},
 		minISR: minISR, fetchMax: fetchMax, batch: batch, pending: map[string][]vRaftOp{},
 	}
 	nc, err := nats.Connect(k.url)
@@ -769,17 +770,27 @@ func (k *vKit) close() {
 // ---- projection ---------------------------------------------------------------
 
 func vReadRepLog(l commitlog.CommitLog) []vRepRec {
+	out, _ := vReadRepLogGap(l)
+	return out
+}
+
+// vReadRepLogGap also reports whether the stored offsets are not the consecutive run 0, 1, 2, ...
+func vReadRepLogGap(l commitlog.CommitLog) ([]vRepRec, bool) {
 	out := []vRepRec{}
+	gap := false
 	r, err := l.NewReader(0, true)
 	if err != nil {
-		return out
+		return out, false
 	}
 	headers := make([]byte, 28)
 	ctx := vCancelledCtx()
 	for i := 0; i < 4096; i++ {
-		m, _, _, ep, err := r.ReadMessage(ctx, headers)
+		m, off, _, ep, err := r.ReadMessage(ctx, headers)
 		if err != nil {
 			break
+		}
+		if off != int64(len(out)) {
+			gap = true
 		}
 		val := string(m.Value())
 		v := int64(-1)
@@ -788,7 +799,7 @@ func vReadRepLog(l commitlog.CommitLog) []vRepRec {
 		}
 		out = append(out, vRepRec{E: int64(ep), V: v})
 	}
-	return out
+	return out, gap
 }
 
 type vEpochEntry struct {
@@ -823,7 +834,7 @@ func (k *vKit) snapshot(id string) {
 	if p == nil {
 		return
 	}
-	k.lastLog[id] = vReadRepLog(p.log)
+	k.lastLog[id], k.lastGap[id] = vReadRepLogGap(p.log)
 	k.lastHW[id] = p.log.HighWatermark()
 	io := map[string]int64{}
 	p.mu.RLock()
@@ -845,6 +856,8 @@ type vRepState struct {
 	IsrOff map[string]map[string]int64 `json:"isrOff"`
 	PendN  map[string]int64            `json:"pendN"`
 	Lag    []string                    `json:"lagging"`
+	// Gap: the offsets stored by the replica are not the consecutive run 0, 1, 2, ...
+	Gap map[string]bool `json:"gap"`
 }
 
 func (k *vKit) state() vRepState {
@@ -873,6 +886,10 @@ func (k *vKit) state() vRepState {
 		IsrOff: map[string]map[string]int64{}, PendN: map[string]int64{},
 	}
 	st.Lag = []string{}
+	st.Gap = map[string]bool{}
+	for _, id := range k.ids {
+		st.Gap[id] = k.lastGap[id]
+	}
 	for _, id := range k.ids {
 		if len(k.pending[id]) > 0 {
 			st.Lag = append(st.Lag, id)
